@@ -1189,8 +1189,8 @@ class x86allmncs(object):
         addop("leave", [0xC9],             noafs, no_rm         , {}                 ,{}                , {},                         )
         addop("lgdt",  [0x0F, 0x01],       d2   , no_rm         , {}                 ,{}                , {},                         )
         addop("lidt",  [0x0F, 0x01],       d3   , no_rm         , {}                 ,{}                , {},                         )
-        addop("lldt",  [0x0F, 0x00],       d2   , no_rm         , {}                 ,{}                , {},                         )
-        addop("lmsw",  [0x0F, 0x01],       d6   , no_rm         , {}                 ,{}                , {},                         )
+        addop("lldt",  [0x0F, 0x00],       d2   , no_rm         , {}                 ,{wd:True}       , {},                         )
+        addop("lmsw",  [0x0F, 0x01],       d6   , no_rm         , {}                 ,{wd:True}       , {},                         )
 
         #ddop("lods",  [0xAC],             noafs, no_rm         , {w8:(0,0)}         ,{}                , {},                         )
         addop("lodsb", [0xAC],             noafs, no_rm         , {}                 ,{w8:True}         , {},                         )
@@ -1371,8 +1371,8 @@ class x86allmncs(object):
         addop("test",  [0x84],             noafs, [rmr]         , {w8:(0,0)}         ,{sw:True}         , {},                         )
 
         addop("ud2",   [0x0F, 0x0B],       noafs, no_rm         , {}                 ,{}                , {bkf:True}                  )
-        addop("verr",  [0x0F, 0x00],       d4   , no_rm         , {}                 ,{}                , {},                         )
-        addop("verw",  [0x0F, 0x00],       d5   , no_rm         , {}                 ,{}                , {},                         )
+        addop("verr",  [0x0F, 0x00],       d4   , no_rm         , {}                 ,{wd:True}       , {},                         )
+        addop("verw",  [0x0F, 0x00],       d5   , no_rm         , {}                 ,{wd:True}       , {},                         )
         addop("wbinvd",[0x0F, 0x09],       noafs, no_rm         , {}                 ,{}                , {},                         )
         addop("wrmsr", [0x0F, 0x30],       noafs, no_rm         , {}                 ,{}                , {},                         )
 
